@@ -116,6 +116,8 @@ type levelB struct {
 	rdbRule                         string
 	dbs, evals, nontrivial, failing int64
 	surroundings                    string
+	largeDoc                        string // the large maps (levelb_large.go)
+	nLarge, largeMinPoints          int
 	alpha                           []prefix
 	clients                         []client
 	cases                           []bcase
@@ -385,6 +387,7 @@ func runLevelB(r *vlib.Run, dir string) *levelB {
 	db.SeparateBitMap = true
 	vlib.ParallelFor(len(b.cases), func(i int) { b.runCase(dir, i, storesPhase2) })
 	db.SeparateBitMap = false
+	b.runLarge(r, dir)
 
 	b.report(r)
 	b.sample(r)
